@@ -396,10 +396,38 @@ func fmtSymbolic(ex *Exec, format string, elems []Value) ([]*Term, bool) {
 			out = append(out, s.B...)
 		case 'x', 'X':
 			v, ok := iv.V.(*Term)
-			if !ok || v.Sort.K != SBV || !zero || width == 0 || width > 16 {
+			if !ok || v.Sort.K != SBV {
 				return nil, false
 			}
 			w := v.Sort.W
+			if !zero && width == 0 {
+				// plain %x: as many digits as the value needs (one path per digit count)
+				if b, isBasic := iv.T.Underlying().(*types.Basic); !isBasic || b.Info()&types.IsInteger == 0 {
+					return nil, false
+				} else if b.Info()&types.IsUnsigned == 0 {
+					neg := ex.ts.BVCmp("bvslt", v, ex.ts.BVConst(w, 0))
+					if !neg.IsFalse() && (ex.sol == nil || ex.sol.Check(neg) != "unsat") {
+						return nil, false
+					}
+				}
+				nd := (w + 3) / 4
+				conds := make([]*Term, nd)
+				for d := 0; d < nd; d++ {
+					c := ex.ts.True()
+					if d > 0 {
+						c = ex.ts.BVCmp("bvuge", v, ex.ts.BVBig(w, new(big.Int).Lsh(big.NewInt(1), uint(4*d))))
+					}
+					if 4*(d+1) < w {
+						c = ex.ts.And(c, ex.ts.BVCmp("bvult", v, ex.ts.BVBig(w, new(big.Int).Lsh(big.NewInt(1), uint(4*(d+1))))))
+					}
+					conds[d] = c
+				}
+				width = 1 + ex.decide(conds, "fmt %x digit count")
+				zero = true
+			}
+			if !zero || width == 0 || width > 16 {
+				return nil, false
+			}
 			// exactly `width` digits when the value is non-negative and below 16^width
 			if 4*width < w {
 				limit := ex.ts.BVBig(w, new(big.Int).Lsh(big.NewInt(1), uint(4*width)))
